@@ -10,6 +10,7 @@ Ltac crush_proc :=
          | s : proc |- _ => destruct s
          | r : rng |- _ => destruct r
          | r : sref |- _ => destruct r
+         | c : option bool |- _ => destruct c
          end; cbn in *.
 
 (* ---------- what the code under test cannot do ---------- *)
@@ -152,7 +153,7 @@ Proof.
   exists {| cfg_seed := 0; table := [] |}, [], [LogDisable 50],
     {| s_out := Std; s_err := Std; s_in := Std; nullw_closed := false; nullr_closed := false;
        fd0 := true; fd1 := true; fd2 := true; logd := 0;
-       mod_rng := (0, O); inst_rng := (0, O); pyn_rng := (0, O); counter := 0 |}.
+       mod_rng := (0, O); inst_rng := (0, O); pyn_rng := (0, O); counter := 0; log_cache := None |}.
   split; [split; reflexivity|]. vm_compute. discriminate.
 Qed.
 
@@ -161,7 +162,7 @@ Qed.
 Definition refute_proc : proc :=
   {| s_out := Other false; s_err := Std; s_in := Std; nullw_closed := false; nullr_closed := false;
      fd0 := true; fd1 := true; fd2 := true; logd := 0;
-     mod_rng := (0, O); inst_rng := (0, O); pyn_rng := (0, O); counter := 0 |}.
+     mod_rng := (0, O); inst_rng := (0, O); pyn_rng := (0, O); counter := 0; log_cache := None |}.
 
 Theorem bracket_restores_refuted :
   exists e t s, pyn_view (fst (exec_test e t s)) <> pyn_view s.
@@ -206,36 +207,39 @@ Proof.
 Qed.
 
 (* ---------- results do not depend on what ran before ---------- *)
-Definition erase (s : proc) : proc := set_counter 0 (set_pyn (0, O) s).
+Definition erase (s : proc) : proc := set_cache None (set_counter 0 (set_pyn (0, O) s)).
 
 Lemma act_step_sim e a s1 s2 :
-  a <> ReadCounter -> erase s1 = erase s2 ->
+  a <> ReadCounter -> erase s1 = erase s2 -> cache_ok s1 -> cache_ok s2 ->
   erase (fst (act_step e a s1)) = erase (fst (act_step e a s2)) /\
-  snd (act_step e a s1) = snd (act_step e a s2).
+  snd (act_step e a s1) = snd (act_step e a s2) /\
+  cache_ok (fst (act_step e a s1)) /\ cache_ok (fst (act_step e a s2)).
 Proof.
-  intros Hne H. destruct s1, s2. unfold erase in H. cbn in H. inversion H. subst. clear H.
+  intros Hne H C1 C2. destruct s1, s2. unfold erase in H. cbn in H. inversion H. subst. clear H.
+  unfold cache_ok in *. cbn in C1, C2.
   destruct a; try congruence; try match goal with fd : nat |- _ => destruct fd as [|[|fd]] end; 
     repeat match goal with
            | r : rng |- _ => destruct r
            | r : sref |- _ => destruct r
-           end; cbn;
+           | c : option bool |- _ => destruct c
+           end; cbn in *; subst;
     repeat match goal with
            | |- context [match ?x with _ => _ end] => destruct x; cbn
-           end; split; reflexivity.
+           end; repeat split; try reflexivity; try assumption.
 Qed.
 
 Lemma run_stmts_sim e t : forall s1 s2,
-  reads_hidden t = false -> erase s1 = erase s2 ->
+  reads_hidden t = false -> erase s1 = erase s2 -> cache_ok s1 -> cache_ok s2 ->
   erase (fst (run_stmts e t s1)) = erase (fst (run_stmts e t s2)) /\
   snd (run_stmts e t s1) = snd (run_stmts e t s2).
 Proof.
-  induction t as [|a t IH]; intros s1 s2 H He; simpl; [split; [exact He|reflexivity]|].
+  induction t as [|a t IH]; intros s1 s2 H He C1 C2; simpl; [split; [exact He|reflexivity]|].
   simpl in H. apply orb_false_iff in H. destruct H as [Ha Ht].
   assert (Hne : a <> ReadCounter) by (intros ->; discriminate).
-  destruct (act_step_sim e a s1 s2 Hne He) as [He' Ho].
+  destruct (act_step_sim e a s1 s2 Hne He C1 C2) as [He' [Ho [C1' C2']]].
   destruct (act_step e a s1) as [s1' o1]; destruct (act_step e a s2) as [s2' o2]. simpl in *. subst o2.
   destruct o1 as [|x]; [|split; [exact He'|reflexivity]].
-  destruct (IH s1' s2' Ht He') as [He'' Ho'].
+  destruct (IH s1' s2' Ht He' C1' C2') as [He'' Ho'].
   destruct (run_stmts e t s1') as [s1'' os1]; destruct (run_stmts e t s2') as [s2'' os2].
   simpl in *. subst. split; [exact He''|reflexivity].
 Qed.
@@ -245,23 +249,96 @@ Lemma erase_enter e s1 s2 :
   erase (enter (make_deterministic e s1)) = erase (enter (make_deterministic e s2)).
 Proof. unfold ambient. destruct s1, s2. cbn. intro H. inversion H. reflexivity. Qed.
 
+Lemma cache_ok_enter e s : cache_ok s -> cache_ok (enter (make_deterministic e s)).
+Proof. destruct s. unfold cache_ok. cbn. exact (fun H => H). Qed.
+
 Lemma result_run e t s : result e t s = snd (run_stmts e t (enter (make_deterministic e s))).
 Proof.
   unfold result, exec_test. cbv zeta.
   destruct (run_stmts e t (enter (make_deterministic e s))) as [s3 os]. reflexivity.
 Qed.
 
-Theorem result_depends_on_ambient_only e t s1 s2 :
-  reads_hidden t = false -> ambient s1 = ambient s2 -> result e t s1 = result e t s2.
+(* after the bracket no stale answer is cached *)
+Lemma restore_cache sv s : log_cache (restore sv s) = None.
+Proof. destruct sv, s. reflexivity. Qed.
+
+Lemma exec_test_cache e t s : log_cache (fst (exec_test e t s)) = None.
 Proof.
-  intros H Ha. rewrite !result_run.
-  apply (run_stmts_sim e t _ _ H (erase_enter e s1 s2 Ha)).
+  unfold exec_test. cbv zeta.
+  destruct (run_stmts e t (enter (make_deterministic e s))) as [s3 os]. apply restore_cache.
+Qed.
+
+Lemma exec_timeout_cache e t1 t2 s : log_cache (exec_timeout e t1 t2 s) = None.
+Proof. unfold exec_timeout. cbv zeta. apply (restore_cache). Qed.
+
+Lemma item_step_cache_ok e s i : cache_ok s -> cache_ok (item_step e s i).
+Proof.
+  intro C. destruct i; simpl.
+  - unfold cache_ok. rewrite exec_test_cache. exact I.
+  - unfold cache_ok. rewrite exec_timeout_cache. exact I.
+  - destruct s. cbn in *. destruct pyn_rng0. exact C.
+Qed.
+
+Lemma run_items_cache_ok e l : forall s, cache_ok s -> cache_ok (run_items e s l).
+Proof.
+  unfold run_items. induction l as [|i l IH]; intros s C; simpl; [exact C|].
+  apply IH. apply item_step_cache_ok. exact C.
+Qed.
+
+Theorem result_depends_on_ambient_only e t s1 s2 :
+  reads_hidden t = false -> cache_ok s1 -> cache_ok s2 -> ambient s1 = ambient s2 ->
+  result e t s1 = result e t s2.
+Proof.
+  intros H C1 C2 Ha. rewrite !result_run.
+  apply (run_stmts_sim e t _ _ H (erase_enter e s1 s2 Ha) (cache_ok_enter e s1 C1) (cache_ok_enter e s2 C2)).
 Qed.
 
 Theorem order_independent e items t s :
-  reads_hidden t = false -> result e t (run_items e s items) = result e t s.
+  reads_hidden t = false -> cache_ok s -> result e t (run_items e s items) = result e t s.
 Proof.
-  intro H. apply result_depends_on_ambient_only; [exact H|apply run_items_ambient].
+  intros H C. apply result_depends_on_ambient_only;
+    [exact H|apply run_items_cache_ok; exact C|exact C|apply run_items_ambient].
+Qed.
+
+(* the effective behaviour of existing loggers (isEnabledFor) is as before, not only the number *)
+Lemma log_loud_fresh s : log_cache s = None -> log_loud s = loud (logd s).
+Proof. unfold log_loud, consult. intros ->. reflexivity. Qed.
+
+Lemma log_loud_ok s : cache_ok s -> log_loud s = loud (logd s).
+Proof. unfold cache_ok, log_loud, consult. destruct (log_cache s); simpl; [intros ->|]; reflexivity. Qed.
+
+Lemma rest_view_logd s' s : rest_view s' = rest_view s -> logd s' = logd s.
+Proof. unfold rest_view. intro H. inversion H. reflexivity. Qed.
+
+Theorem logging_behaviour_restored e t s :
+  cache_ok s -> log_loud (fst (exec_test e t s)) = log_loud s.
+Proof.
+  intro C. rewrite (log_loud_fresh _ (exec_test_cache e t s)), (log_loud_ok s C).
+  rewrite (rest_view_logd _ _ (proj1 (bracket_restores_gen e t s))). reflexivity.
+Qed.
+
+Theorem logging_behaviour_restored_timeout e t1 t2 s :
+  cache_ok s -> log_loud (exec_timeout e t1 t2 s) = log_loud s.
+Proof.
+  intro C. rewrite (log_loud_fresh _ (exec_timeout_cache e t1 t2 s)), (log_loud_ok s C).
+  rewrite (rest_view_logd _ _ (proj1 (timeout_restores_gen e t1 t2 s))). reflexivity.
+Qed.
+
+(* handing only the number back (assigning manager.disable) is not enough *)
+Definition exec_test_level_only (e : env) (t : list act) (s : proc) : proc :=
+  let s1 := make_deterministic e s in
+  let sv := save s1 in
+  restore_logging_level_only sv (osc_restore sv (fst (run_stmts e t (enter s1)))).
+
+Theorem level_only_restore_refuted :
+  exists e t s, cache_ok s /\ logd (exec_test_level_only e t s) = logd s /\
+                log_loud (exec_test_level_only e t s) <> log_loud s.
+Proof.
+  exists {| cfg_seed := 0; table := [] |}, [LogDisable 50; LogEmit],
+    {| s_out := Std; s_err := Std; s_in := Std; nullw_closed := false; nullr_closed := false;
+       fd0 := true; fd1 := true; fd2 := true; logd := 0;
+       mod_rng := (0, O); inst_rng := (0, O); pyn_rng := (0, O); counter := 0; log_cache := None |}.
+  split; [exact I|]. split; [reflexivity|]. vm_compute. discriminate.
 Qed.
 
 (* every execution starts with usable null streams and freshly seeded generators *)
@@ -281,7 +358,7 @@ Definition ex_env : env := {| cfg_seed := 7; table := [(7, [true; false; true]);
 Definition ex_proc : proc :=
   {| s_out := Std; s_err := Std; s_in := Other false; nullw_closed := false; nullr_closed := false;
      fd0 := true; fd1 := true; fd2 := true; logd := 10;
-     mod_rng := (1, 5%nat); inst_rng := (5, 0%nat); pyn_rng := (99, 3%nat); counter := 0 |}.
+     mod_rng := (1, 5%nat); inst_rng := (5, 0%nat); pyn_rng := (99, 3%nat); counter := 0; log_cache := Some true |}.
 
 (* a test that closes everything, disables logging, reseeds and draws; the state inside the
    bracket really changes, the view afterwards is the one from before *)
